@@ -176,7 +176,7 @@ CHECKS["C20"] = {
 CHECKS["C17"] = {
     "engine": "E1 lattice explorer",
     "jobs": lambda tier: [job("C17.cpp", "C17")],
-    "rule": "unit = one exponent of the mantissa/exponent lattice (tau = +-m 2^e, T = m 2^e, 16 four-bit mantissas, e in [-60,19], capped at 1e6) or one block of 8192 CONSECUTIVE doubles around a critical point (tau around 0 incl. denormals and both signs, +-1, +-1e6; T around 1, 1e-6, 1e6); at every point: toTime > 0 and equal to the closed form (1e-14), toTime(tau) <= toTime(next double), toTime(tau + 16 ulp) > toTime(tau), backward = g T'(tau) (1e-14) and linear in g, toTau(toTime tau) = tau and toTime(toTau T) = T (1e-12), toTau monotone; one-sided derivatives and difference quotients at the switch; identity map bitwise; non-trivial = every unit",
+    "rule": "unit = one exponent of the mantissa/exponent lattice (tau = +-m 2^e, T = m 2^e, 16 four-bit mantissas, e in [-60,19], capped at 1e6) or one exponent of the approach lattices c +- m 2^e, e in [-52,-1], towards each critical point c, or one block of 8192 CONSECUTIVE doubles around a critical point (tau around 0 incl. denormals and both signs, +-1, +-1e6; T around 1, 1e-6, 1e6); at every point: toTime > 0 and equal to the closed form (1e-14), toTime(tau) <= toTime(next double), toTime(tau + 16 ulp) > toTime(tau), backward = g T'(tau) (1e-14) and linear in g, toTau(toTime tau) = tau and toTime(toTau T) = T (1e-12), toTau monotone; one-sided derivatives and difference quotients at the switch; identity map bitwise; non-trivial = every unit",
     "bounds": {"quick": "2560 lattice points + 2^17 consecutive doubles around each of 8 critical points", "thorough": "2560 lattice points + 2^21 consecutive doubles around each of 8 critical points"},
     "thresholds": {"closed form / backward": 1e-14, "round trips": 1e-12, "monotone": "exact between adjacent doubles; strict at 16 ulp"},
     "assumptions": ASSUME_COMMON,
